@@ -178,6 +178,10 @@ impl RealConfig {
     pub fn get(&self) -> &Config {
         unsafe { &*self.ptr }
     }
+    /// The configuration with an unbounded lifetime (the owner keeps the RealConfig alive as long as anything refers to it).
+    pub fn get_static(&self) -> &'static Config {
+        unsafe { &*self.ptr }
+    }
     pub fn raw(&self) -> *mut Config {
         self.ptr
     }
@@ -276,11 +280,51 @@ pub fn render(sug: &Suggestion) -> Obs {
     o
 }
 
+/// One call on a live context (the context object itself is never named by its type: the harness keeps building when the
+/// type's signature changes, e.g. when a change makes the context borrow its configuration).
+pub enum Op {
+    Key(u16, u8, u8),
+    Backspace(bool),
+    Commit(usize),
+    Finish,
+    Update(&'static Config),
+    Ongoing,
+}
+pub enum Out {
+    Sug(Suggestion),
+    Nothing,
+    Flag(bool),
+}
+type Engine = Box<dyn FnMut(Op) -> Out>;
+
+fn make_engine(cfg: &'static Config) -> Engine {
+    let mut ctx = RitiContext::new_with_config(cfg);
+    Box::new(move |op| match op {
+        Op::Key(code, modifier, sel) => Out::Sug(ctx.get_suggestion_for_key(code, modifier, sel)),
+        Op::Backspace(ctrl) => Out::Sug(ctx.backspace_event(ctrl)),
+        Op::Commit(index) => {
+            ctx.candidate_committed(index);
+            Out::Nothing
+        }
+        Op::Finish => {
+            ctx.finish_input_session();
+            Out::Nothing
+        }
+        Op::Update(c) => {
+            ctx.update_engine(c);
+            Out::Nothing
+        }
+        Op::Ongoing => Out::Flag(ctx.ongoing_input_session()),
+    })
+}
+
 /// A live context with its config.
 pub struct Ctx {
     pub cfg: Cfg,
     pub real: RealConfig,
-    pub ctx: Option<RitiContext>,
+    /// configurations the context was given earlier (kept alive as long as the context: it may still refer to them)
+    old_reals: Vec<RealConfig>,
+    pub ctx: Option<Engine>,
     pub user_home: PathBuf,
     /// a panic happened inside an engine call: the context must not be used any more
     pub dead: bool,
@@ -290,11 +334,12 @@ impl Ctx {
     /// Create a context; a panic during construction is reported as Err(message).
     pub fn new(cfg: &Cfg, user_home: &Path) -> Result<Ctx, String> {
         let real = RealConfig::new(cfg, user_home);
-        let r = catch_unwind(AssertUnwindSafe(|| RitiContext::new_with_config(real.get())));
+        let r = catch_unwind(AssertUnwindSafe(|| make_engine(real.get_static())));
         match r {
             Ok(ctx) => Ok(Ctx {
                 cfg: cfg.clone(),
                 real,
+                old_reals: Vec::new(),
                 ctx: Some(ctx),
                 user_home: user_home.to_path_buf(),
                 dead: false,
@@ -303,10 +348,15 @@ impl Ctx {
         }
     }
 
-    fn finish_obs(&mut self, r: std::thread::Result<Option<Suggestion>>, t0: u64) -> Obs {
+    fn call(&mut self, op: Op) -> std::thread::Result<Out> {
+        let c = self.ctx.as_mut().unwrap();
+        catch_unwind(AssertUnwindSafe(|| c(op)))
+    }
+
+    fn finish_obs(&mut self, r: std::thread::Result<Out>, t0: u64) -> Obs {
         let mut o = match r {
-            Ok(Some(s)) => render(&s),
-            Ok(None) => Obs {
+            Ok(Out::Sug(s)) => render(&s),
+            Ok(_) => Obs {
                 kind: "none".into(),
                 ..Default::default()
             },
@@ -320,9 +370,9 @@ impl Ctx {
             }
         };
         if !self.dead {
-            let c = self.ctx.as_ref().unwrap();
-            match catch_unwind(AssertUnwindSafe(|| c.ongoing_input_session())) {
-                Ok(b) => o.ongoing = b,
+            match self.call(Op::Ongoing) {
+                Ok(Out::Flag(b)) => o.ongoing = b,
+                Ok(_) => {}
                 Err(_) => {
                     self.dead = true;
                     o.kind = "panic".into();
@@ -336,54 +386,46 @@ impl Ctx {
 
     pub fn key(&mut self, code: u16, modifier: u8, sel: u8) -> Obs {
         let t0 = thread_cpu_us();
-        let c = self.ctx.as_ref().unwrap();
-        let r = catch_unwind(AssertUnwindSafe(|| Some(c.get_suggestion_for_key(code, modifier, sel))));
+        let r = self.call(Op::Key(code, modifier, sel));
         self.finish_obs(r, t0)
     }
     pub fn backspace(&mut self, ctrl: bool) -> Obs {
         let t0 = thread_cpu_us();
-        let c = self.ctx.as_ref().unwrap();
-        let r = catch_unwind(AssertUnwindSafe(|| Some(c.backspace_event(ctrl))));
+        let r = self.call(Op::Backspace(ctrl));
         self.finish_obs(r, t0)
     }
     pub fn commit(&mut self, index: usize) -> Obs {
         let t0 = thread_cpu_us();
-        let c = self.ctx.as_ref().unwrap();
-        let r = catch_unwind(AssertUnwindSafe(|| {
-            c.candidate_committed(index);
-            None
-        }));
+        let r = self.call(Op::Commit(index));
         self.finish_obs(r, t0)
     }
     pub fn finish(&mut self) -> Obs {
         let t0 = thread_cpu_us();
-        let c = self.ctx.as_ref().unwrap();
-        let r = catch_unwind(AssertUnwindSafe(|| {
-            c.finish_input_session();
-            None
-        }));
+        let r = self.call(Op::Finish);
         self.finish_obs(r, t0)
     }
     pub fn update(&mut self, cfg: &Cfg) -> Obs {
         let t0 = thread_cpu_us();
         let real = RealConfig::new(cfg, &self.user_home);
-        let c = self.ctx.as_mut().unwrap();
-        let r = catch_unwind(AssertUnwindSafe(|| {
-            c.update_engine(real.get());
-            None
-        }));
+        let r = self.call(Op::Update(real.get_static()));
         self.cfg = cfg.clone();
-        self.real = real;
+        let old = std::mem::replace(&mut self.real, real);
+        self.old_reals.push(old);
+        if self.old_reals.len() > 1 {
+            // (the context can only refer to the configuration it was given last)
+            self.old_reals.remove(0);
+        }
         self.finish_obs(r, t0)
     }
-    pub fn ongoing(&self) -> bool {
-        self.ctx.as_ref().unwrap().ongoing_input_session()
+    pub fn ongoing(&mut self) -> bool {
+        matches!(self.call(Op::Ongoing), Ok(Out::Flag(true)))
     }
 }
 
 impl Drop for Ctx {
     fn drop(&mut self) {
         // A context that panicked mid-call may hold inconsistent state; dropping is still safe Rust.
+        // (the context goes first, its configurations after it)
         let c = self.ctx.take();
         let _ = catch_unwind(AssertUnwindSafe(move || drop(c)));
     }
